@@ -9,6 +9,7 @@ import (
 	"encoding/binary"
 	"encoding/json"
 	"fmt"
+	"io"
 	"math"
 	"math/rand"
 	"os"
@@ -26,6 +27,7 @@ import (
 	"github.com/multiformats/go-varint"
 
 	"github.com/ucan-wg/go-ucan/did"
+	"github.com/ucan-wg/go-ucan/pkg/args"
 	"github.com/ucan-wg/go-ucan/pkg/container"
 	"github.com/ucan-wg/go-ucan/pkg/policy"
 	"github.com/ucan-wg/go-ucan/pkg/policy/selector"
@@ -39,20 +41,97 @@ type entryPoint struct {
 	call func(in []byte) error
 }
 
+// useToken: whatever a decoder hands out is then USED by the caller - every accessor, printing, iteration, the IPLD
+// form of the arguments, the time check and (for an invocation) the authorization check with a loader that has
+// nothing.  A token that came from hostile bytes must not bring any of them down.  (Printing - String() of
+// arguments, metadata and policies - is left out on purpose: the go-ipld-prime printer indents, so its output is
+// quadratic in the nesting depth, and the property bounds the decoders and the matcher, not the pretty-printer.)
+func useToken(t any, e error) error {
+	if e != nil {
+		return e
+	}
+	far := time.Unix(1<<40, 0)
+	switch t := t.(type) {
+	case *delegation.Token:
+		if t == nil {
+			return nil
+		}
+		_, _, _ = t.Issuer().String(), t.Audience().String(), t.Subject().String()
+		_, _ = t.Issuer().PubKey()
+		_ = t.Command().String()
+		_ = t.Command().Segments()
+		pol := t.Policy()
+		_, _ = pol.ToIPLD()
+		for _, d := range matchProbes {
+			pol.Match(d)
+		}
+		_ = t.Nonce()
+		m := t.Meta()
+		for k := range m.Iter() {
+			m.GetString(k)
+			m.GetInt64(k)
+			m.GetBytes(k)
+			m.GetBool(k)
+			m.GetFloat64(k)
+			m.GetNode(k)
+			m.GetEncryptedString(k, make([]byte, 32))
+			m.GetEncryptedBytes(k, bytes.Repeat([]byte{1}, 32))
+		}
+		_ = m.WriteableClone()
+		_, _ = t.NotBefore(), t.Expiration()
+		_, _ = t.IsValidNow(), t.IsValidAt(far)
+	case *invocation.Token:
+		if t == nil {
+			return nil
+		}
+		_, _, _ = t.Issuer().String(), t.Audience().String(), t.Subject().String()
+		_ = t.Command().String()
+		a := t.Arguments()
+		_, _ = a.ToIPLD()
+		for k := range a.Iter() {
+			a.GetNode(k)
+		}
+		_ = a.WriteableClone()
+		_ = a.Equals(a)
+		_, _, _ = t.Proof(), t.Nonce(), t.Cause()
+		m := t.Meta()
+		for k := range m.Iter() {
+			m.GetString(k)
+			m.GetNode(k)
+		}
+		_, _ = t.Expiration(), t.InvokedAt()
+		_, _ = t.IsValidNow(), t.IsValidAt(far)
+		_ = t.ExecutionAllowed(mapLoader{})
+		_ = t.ExecutionAllowedWithArgsHook(mapLoader{}, func(r args.ReadOnly) (*args.Args, error) { return r.WriteableClone(), nil })
+	case token.Token:
+		if t == nil {
+			return nil
+		}
+		switch tt := t.(type) {
+		case *delegation.Token:
+			return useToken(tt, nil)
+		case *invocation.Token:
+			return useToken(tt, nil)
+		}
+	}
+	return nil
+}
+
 func entryPoints() []entryPoint {
 	nodeOfBytes := func(in []byte) (ipld.Node, error) { return ipld.Decode(in, dagcbor.Decode) }
-	return []entryPoint{
-		{"token.FromSealed", func(in []byte) error { _, _, e := token.FromSealed(in); return e }},
-		{"token.FromSealedReader", func(in []byte) error { _, _, e := token.FromSealedReader(bytes.NewReader(in)); return e }},
-		{"token.FromDagJson", func(in []byte) error { _, e := token.FromDagJson(in); return e }},
-		{"delegation.FromSealed", func(in []byte) error { _, _, e := delegation.FromSealed(in); return e }},
-		{"delegation.FromDagJson", func(in []byte) error { _, e := delegation.FromDagJson(in); return e }},
-		{"invocation.FromSealed", func(in []byte) error { _, _, e := invocation.FromSealed(in); return e }},
-		{"invocation.FromDagJsonReader", func(in []byte) error { _, e := invocation.FromDagJsonReader(bytes.NewReader(in)); return e }},
-		{"container.FromCar", func(in []byte) error { _, e := container.FromCar(in); return e }},
-		{"container.FromCbor", func(in []byte) error { _, e := container.FromCbor(in); return e }},
-		{"container.FromCarBase64", func(in []byte) error { _, e := container.FromCarBase64(in); return e }},
-		{"container.FromCborBase64Reader", func(in []byte) error { _, e := container.FromCborBase64Reader(bytes.NewReader(in)); return e }},
+	rd := func(in []byte) io.Reader { return bytes.NewReader(in) }
+	eps := []entryPoint{
+		{"token.FromSealed", func(in []byte) error { t, _, e := token.FromSealed(in); return useToken(t, e) }},
+		{"token.FromSealedReader", func(in []byte) error { t, _, e := token.FromSealedReader(bytes.NewReader(in)); return useToken(t, e) }},
+		{"token.FromDagJson", func(in []byte) error { t, e := token.FromDagJson(in); return useToken(t, e) }},
+		{"delegation.FromSealed", func(in []byte) error { t, _, e := delegation.FromSealed(in); return useToken(t, e) }},
+		{"delegation.FromDagJson", func(in []byte) error { t, e := delegation.FromDagJson(in); return useToken(t, e) }},
+		{"invocation.FromSealed", func(in []byte) error { t, _, e := invocation.FromSealed(in); return useToken(t, e) }},
+		{"invocation.FromDagJsonReader", func(in []byte) error { t, e := invocation.FromDagJsonReader(bytes.NewReader(in)); return useToken(t, e) }},
+		{"container.FromCar", func(in []byte) error { c, e := container.FromCar(in); return useContainer(c, e) }},
+		{"container.FromCbor", func(in []byte) error { c, e := container.FromCbor(in); return useContainer(c, e) }},
+		{"container.FromCarBase64", func(in []byte) error { c, e := container.FromCarBase64(in); return useContainer(c, e) }},
+		{"container.FromCborBase64Reader", func(in []byte) error { c, e := container.FromCborBase64Reader(bytes.NewReader(in)); return useContainer(c, e) }},
 		{"policy.FromDagJson+Match", func(in []byte) error {
 			p, e := policy.FromDagJson(string(in))
 			if e != nil {
@@ -135,6 +214,84 @@ func entryPoints() []entryPoint {
 			return nil
 		}},
 	}
+	// every other public variant of the decoders (appended: the positions above are referred to by index)
+	eps = append(eps, []entryPoint{
+		{"token.FromDagCbor", func(in []byte) error { t, e := token.FromDagCbor(in); return useToken(t, e) }},
+		{"token.FromDagCborReader", func(in []byte) error { t, e := token.FromDagCborReader(rd(in)); return useToken(t, e) }},
+		{"token.FromDagJsonReader", func(in []byte) error { t, e := token.FromDagJsonReader(rd(in)); return useToken(t, e) }},
+		{"token.Decode(dagcbor)", func(in []byte) error { t, e := token.Decode(in, dagcbor.Decode); return useToken(t, e) }},
+		{"token.DecodeReader(dagjson)", func(in []byte) error { t, e := token.DecodeReader(rd(in), dagjson.Decode); return useToken(t, e) }},
+		{"delegation.FromSealedReader", func(in []byte) error { t, _, e := delegation.FromSealedReader(rd(in)); return useToken(t, e) }},
+		{"delegation.FromDagCbor", func(in []byte) error { t, e := delegation.FromDagCbor(in); return useToken(t, e) }},
+		{"delegation.FromDagCborReader", func(in []byte) error { t, e := delegation.FromDagCborReader(rd(in)); return useToken(t, e) }},
+		{"delegation.FromDagJsonReader", func(in []byte) error { t, e := delegation.FromDagJsonReader(rd(in)); return useToken(t, e) }},
+		{"delegation.Decode(dagjson)", func(in []byte) error { t, e := delegation.Decode(in, dagjson.Decode); return useToken(t, e) }},
+		{"delegation.DecodeReader(dagcbor)", func(in []byte) error { t, e := delegation.DecodeReader(rd(in), dagcbor.Decode); return useToken(t, e) }},
+		{"invocation.FromSealedReader", func(in []byte) error { t, _, e := invocation.FromSealedReader(rd(in)); return useToken(t, e) }},
+		{"invocation.FromDagCbor", func(in []byte) error { t, e := invocation.FromDagCbor(in); return useToken(t, e) }},
+		{"invocation.FromDagCborReader", func(in []byte) error { t, e := invocation.FromDagCborReader(rd(in)); return useToken(t, e) }},
+		{"invocation.FromDagJson", func(in []byte) error { t, e := invocation.FromDagJson(in); return useToken(t, e) }},
+		{"invocation.Decode(dagcbor)", func(in []byte) error { t, e := invocation.Decode(in, dagcbor.Decode); return useToken(t, e) }},
+		{"invocation.DecodeReader(dagjson)", func(in []byte) error { t, e := invocation.DecodeReader(rd(in), dagjson.Decode); return useToken(t, e) }},
+		{"delegation.FromIPLD", func(in []byte) error {
+			n, e := nodeOfBytes(in)
+			if e != nil {
+				return e
+			}
+			t, e := delegation.FromIPLD(n)
+			return useToken(t, e)
+		}},
+		{"invocation.FromIPLD", func(in []byte) error {
+			n, e := nodeOfBytes(in)
+			if e != nil {
+				return e
+			}
+			t, e := invocation.FromIPLD(n)
+			return useToken(t, e)
+		}},
+		{"token.Inspect+FindTag", func(in []byte) error {
+			n, e := nodeOfBytes(in)
+			if e != nil {
+				if n, e = ipld.Decode(in, dagjson.Decode); e != nil {
+					return e
+				}
+			}
+			info, e1 := token.Inspect(n)
+			tag, e2 := token.FindTag(n)
+			if e1 == nil && e2 == nil && info.Tag != tag {
+				panic(fmt.Sprintf("token.Inspect and token.FindTag disagree on the tag: %q vs %q", info.Tag, tag))
+			}
+			if e1 != nil {
+				return e1
+			}
+			return e2
+		}},
+		{"container.FromCarReader", func(in []byte) error { c, e := container.FromCarReader(rd(in)); return useContainer(c, e) }},
+		{"container.FromCborReader", func(in []byte) error { c, e := container.FromCborReader(rd(in)); return useContainer(c, e) }},
+		{"container.FromCborBase64", func(in []byte) error { c, e := container.FromCborBase64(in); return useContainer(c, e) }},
+		{"container.FromCarBase64Reader", func(in []byte) error { c, e := container.FromCarBase64Reader(rd(in)); return useContainer(c, e) }},
+	}...)
+	return eps
+}
+
+// useContainer: everything a reader offers on a container that came from hostile bytes.
+func useContainer(c container.Reader, e error) error {
+	if e != nil {
+		return e
+	}
+	for id, d := range c.GetAllDelegations() {
+		useToken(d, nil)
+		c.GetDelegation(id)
+		c.GetToken(id)
+	}
+	for id, i := range c.GetAllInvocations() {
+		useToken(i, nil)
+		c.GetToken(id)
+		_ = i.ExecutionAllowed(c)
+	}
+	c.GetInvocation()
+	c.GetDelegation(missingCid(1))
+	return nil
 }
 
 var matchProbes []ipld.Node
@@ -359,8 +516,10 @@ func init() {
 			return err
 		}
 		for name, b := range ht {
-			for _, ep := range eps[:7] {
-				record(ep, "hostile-signed", name, b)
+			for _, ep := range eps {
+				if strings.HasPrefix(ep.name, "token.") || strings.HasPrefix(ep.name, "delegation.") || strings.HasPrefix(ep.name, "invocation.") {
+					record(ep, "hostile-signed", name, b)
+				}
 			}
 			// the same token inside containers
 			w := container.NewWriter()
